@@ -680,4 +680,445 @@ theorem run_unique (strict : Bool) (σ1 : List Task) :
       rw [← hσ'] at h2 ⊢
       exact ih c' σ' (inv_step strict t c c' hI ht) h1 h2
 
+/-! ### the canonical schedule is a schedule -/
+
+def Reach (strict : Bool) (c c' : Cfg Req Resp) : Prop := ∃ σ, run strict σ c = c'
+
+theorem run_append (strict : Bool) (σ1 σ2 : List Task) (c : Cfg Req Resp) :
+    run strict (σ1 ++ σ2) c = run strict σ2 (run strict σ1 c) := by
+  induction σ1 generalizing c with
+  | nil => rfl
+  | cons t ts ih => simp only [List.cons_append, run]; cases step strict t c <;> exact ih _
+
+theorem Reach.refl (strict : Bool) (c : Cfg Req Resp) : Reach strict c c := ⟨[], rfl⟩
+theorem Reach.trans {strict : Bool} {a b c : Cfg Req Resp} (h1 : Reach strict a b) (h2 : Reach strict b c) :
+    Reach strict a c := by
+  obtain ⟨σ1, rfl⟩ := h1; obtain ⟨σ2, rfl⟩ := h2; exact ⟨σ1 ++ σ2, run_append strict σ1 σ2 a⟩
+theorem Reach.step {strict : Bool} {a b : Cfg Req Resp} (t : Task) (h : step strict t a = some b) : Reach strict a b :=
+  ⟨[t], by simp [run, h]⟩
+
+theorem mRun_ops_irrel (strict : Bool) (ops : List (COp Req)) :
+    ∀ (cl : Client) (up : Up Req) (d : Down Resp) (s : List (SOp Req)) (x y : List (COp Req)) (resp : Option Resp)
+      (yl : List Resp) (res : Option (CResult Resp)) (v : VSt Req Resp),
+      mRun strict ops ⟨cl, up, d, s, ⟨x, resp, yl, res⟩, v⟩ = mRun strict ops ⟨cl, up, d, s, ⟨y, resp, yl, res⟩, v⟩ := by
+  induction ops with
+  | nil => intros; rfl
+  | cons op rest ih =>
+    intro cl up d s x y resp yl res v
+    cases op with
+    | sendRequest => simp only [mRun]; cases sendRequest cl <;> simp [failM, ih _ _ _ _ x y]
+    | send o => simp only [mRun]; cases sendOp cl up o <;> simp [failM, ih _ _ _ _ x y]
+    | spawn z => simp only [mRun]; exact ih _ _ _ _ x y _ _ _ _
+    | recvMessage =>
+      simp only [mRun]
+      cases cl.reqDone <;> simp [failM]
+      cases downRecv d with
+      | none => rfl
+      | some a => cases a <;> simp [failM, ih _ _ _ _ x y]
+    | iterYield =>
+      simp only [mRun]
+      cases cl.reqDone <;> simp [failM]
+      cases downRecv ({ d with msgs := [] } : Down Resp) with
+      | none => rfl
+      | some a => cases a <;> simp [failM, ih _ _ _ _ x y]
+    | exitCtx =>
+      simp only [mRun]
+      cases exitCheck strict cl d with
+      | none => rfl
+      | some a => cases a <;> simp [failM, ih _ _ _ _ x y]
+    | assertResponse => simp only [mRun]; cases resp <;> simp [failM, ih _ _ _ _ x y]
+    | returnResponse => simp only [mRun]
+
+theorem iter_reach (strict : Bool) (msgs : List Resp) :
+    ∀ (cl : Client) (up : Up Req) (dh : Bool) (df : Option (Option GErr)) (s : List (SOp Req)) (rest : List (COp Req))
+      (resp : Option Resp) (yl : List Resp) (res : Option (CResult Resp)) (v : VSt Req Resp), cl.reqDone = true →
+      Reach strict ⟨cl, up, ⟨msgs, dh, df⟩, s, ⟨.iterYield :: rest, resp, yl, res⟩, v⟩
+        ⟨cl, up, ⟨[], dh, df⟩, s, ⟨.iterYield :: rest, resp, yl ++ msgs, res⟩, v⟩ := by
+  induction msgs with
+  | nil => intro cl up dh df s rest resp yl res v _; simp; exact Reach.refl _ _
+  | cons x xs ih =>
+    intro cl up dh df s rest resp yl res v hr
+    have h1 : step strict .M (⟨cl, up, ⟨x :: xs, dh, df⟩, s, ⟨.iterYield :: rest, resp, yl, res⟩, v⟩ : Cfg Req Resp)
+        = some ⟨cl, up, ⟨xs, dh, df⟩, s, ⟨.iterYield :: rest, resp, yl ++ [x], res⟩, v⟩ := by
+      simp [step, mStep, hr, downRecv]
+    have h2 := ih cl up dh df s rest resp (yl ++ [x]) res v hr
+    simp only [List.append_assoc, List.singleton_append] at h2
+    exact (Reach.step .M h1).trans h2
+
+theorem mStep_nil (strict : Bool) (c : Cfg Req Resp) (h : c.m.ops = []) : mStep strict c = none := by
+  simp [mStep, h]
+
+theorem mRun_reach (strict : Bool) (ops : List (COp Req)) :
+    ∀ (cl : Client) (up : Up Req) (d : Down Resp) (s : List (SOp Req)) (resp : Option Resp) (yl : List Resp)
+      (res : Option (CResult Resp)) (v : VSt Req Resp),
+      Reach strict ⟨cl, up, d, s, ⟨ops, resp, yl, res⟩, v⟩ (mRun strict ops ⟨cl, up, d, s, ⟨ops, resp, yl, res⟩, v⟩)
+      ∧ mStep strict (mRun strict ops ⟨cl, up, d, s, ⟨ops, resp, yl, res⟩, v⟩) = none := by
+  induction ops with
+  | nil => intro cl up d s resp yl res v; exact ⟨Reach.refl _ _, mStep_nil _ _ rfl⟩
+  | cons op rest ih =>
+    intro cl up d s resp yl res v
+    -- one step, then the induction hypothesis at the next configuration
+    have next : ∀ (c1 : Cfg Req Resp) (cl' : Client) (up' : Up Req) (d' : Down Resp) (s' : List (SOp Req))
+        (resp' : Option Resp) (yl' : List Resp),
+        Reach strict ⟨cl, up, d, s, ⟨op :: rest, resp, yl, res⟩, v⟩ ⟨cl', up', d', s', ⟨rest, resp', yl', res⟩, v⟩ →
+        Reach strict ⟨cl, up, d, s, ⟨op :: rest, resp, yl, res⟩, v⟩
+            (mRun strict rest ⟨cl', up', d', s', ⟨op :: rest, resp', yl', res⟩, v⟩)
+          ∧ mStep strict (mRun strict rest ⟨cl', up', d', s', ⟨op :: rest, resp', yl', res⟩, v⟩) = none := by
+      intro _ cl' up' d' s' resp' yl' hreach
+      rw [mRun_ops_irrel strict rest cl' up' d' s' (op :: rest) rest]
+      exact ⟨hreach.trans (ih cl' up' d' s' resp' yl' res v).1, (ih cl' up' d' s' resp' yl' res v).2⟩
+    have c0 : Cfg Req Resp := ⟨cl, up, d, s, ⟨op :: rest, resp, yl, res⟩, v⟩
+    cases op with
+    | sendRequest =>
+      cases hq : sendRequest cl with
+      | ok cl' =>
+        simp only [mRun, hq]
+        exact next c0 cl' up d s resp yl (Reach.step .M (by simp [step, mStep, hq]))
+      | error e =>
+        simp only [mRun, hq]
+        exact ⟨Reach.step .M (by simp [step, mStep, hq]), mStep_nil _ _ rfl⟩
+    | send o =>
+      cases hq : sendOp cl up o with
+      | ok r =>
+        obtain ⟨cl', up'⟩ := r
+        simp only [mRun, hq]
+        exact next c0 cl' up' d s resp yl (Reach.step .M (by simp [step, mStep, hq]))
+      | error e =>
+        simp only [mRun, hq]
+        exact ⟨Reach.step .M (by simp [step, mStep, hq]), mStep_nil _ _ rfl⟩
+    | spawn x =>
+      simp only [mRun]
+      exact next c0 cl up d (s ++ x) resp yl (Reach.step .M (by simp [step, mStep]))
+    | assertResponse =>
+      cases resp with
+      | none =>
+        simp only [mRun]
+        exact ⟨Reach.step .M (by simp [step, mStep]), mStep_nil _ _ rfl⟩
+      | some x =>
+        simp only [mRun]
+        exact next c0 cl up d s (some x) yl (Reach.step .M (by simp [step, mStep]))
+    | returnResponse =>
+      simp only [mRun]
+      exact ⟨Reach.step .M (by simp [step, mStep]), mStep_nil _ _ rfl⟩
+    | recvMessage =>
+      cases hr : cl.reqDone with
+      | false =>
+        simp only [mRun, hr]
+        exact ⟨Reach.step .M (by simp [step, mStep, hr]), mStep_nil _ _ rfl⟩
+      | true =>
+        cases hd : downRecv d with
+        | none =>
+          simp only [mRun, hr, hd]
+          exact ⟨Reach.refl _ _, by simp [mStep, hr, hd]⟩
+        | some a =>
+          cases a with
+          | msg r d' =>
+            simp only [mRun, hr, hd]
+            exact next c0 cl up d' s (some r) yl (Reach.step .M (by simp [step, mStep, hr, hd]))
+          | eof =>
+            simp only [mRun, hr, hd]
+            exact next c0 cl up d s none yl (Reach.step .M (by simp [step, mStep, hr, hd]))
+          | err e =>
+            simp only [mRun, hr, hd]
+            exact ⟨Reach.step .M (by simp [step, mStep, hr, hd]), mStep_nil _ _ rfl⟩
+    | iterYield =>
+      cases hr : cl.reqDone with
+      | false =>
+        simp only [mRun, hr]
+        exact ⟨Reach.step .M (by simp [step, mStep, hr]), mStep_nil _ _ rfl⟩
+      | true =>
+        obtain ⟨dm, dh, df⟩ := d
+        have hit := iter_reach strict dm cl up dh df s rest resp yl res v hr
+        cases hd : downRecv (⟨[], dh, df⟩ : Down Resp) with
+        | none =>
+          simp only [mRun, hr, hd]
+          exact ⟨hit, by simp [mStep, hr, hd]⟩
+        | some a =>
+          cases a with
+          | msg r d' => simp [downRecv] at hd; cases df with
+            | none => simp at hd
+            | some f => cases f <;> simp at hd <;> split at hd <;> simp at hd
+          | eof =>
+            simp only [mRun, hr, hd]
+            exact next c0 cl up ⟨[], dh, df⟩ s resp (yl ++ dm) (hit.trans (Reach.step .M (by simp [step, mStep, hr, hd])))
+          | err e =>
+            simp only [mRun, hr, hd]
+            exact ⟨hit.trans (Reach.step .M (by simp [step, mStep, hr, hd])), mStep_nil _ _ rfl⟩
+    | exitCtx =>
+      cases hd : exitCheck strict cl d with
+      | none =>
+        simp only [mRun, hd]
+        exact ⟨Reach.refl _ _, by simp [mStep, hd]⟩
+      | some a =>
+        cases a with
+        | none =>
+          simp only [mRun, hd]
+          exact next c0 cl up d s resp yl (Reach.step .M (by simp [step, mStep, hd]))
+        | some r =>
+          simp only [mRun, hd]
+          exact ⟨Reach.step .M (by simp [step, mStep, hd]), mStep_nil _ _ rfl⟩
+
+theorem sRun_reach (strict : Bool) (s : List (SOp Req)) :
+    ∀ (cl : Client) (up : Up Req) (d : Down Resp) (m : MSt Req Resp) (v : VSt Req Resp),
+      Reach strict ⟨cl, up, d, s, m, v⟩ ⟨(sRunL s cl up).1, (sRunL s cl up).2, d, [], m, v⟩ := by
+  induction s with
+  | nil => intro cl up d m v; exact Reach.refl _ _
+  | cons o rest ih =>
+    intro cl up d m v
+    cases hq : sendOp cl up o with
+    | ok r =>
+      obtain ⟨cl', up'⟩ := r
+      simp only [sRunL, hq]
+      exact (Reach.step .S (by simp [step, sStep, hq])).trans (ih cl' up' d m v)
+    | error e =>
+      simp only [sRunL, hq]
+      exact Reach.step .S (by simp [step, sStep, hq])
+
+theorem vRun_prog_irrel (p : VProg Req Resp) :
+    ∀ (cl : Client) (up : Up Req) (d : Down Resp) (s : List (SOp Req)) (m : MSt Req Resp) (x y : VProg Req Resp)
+      (calls : Nat) (hIn : List (Option Req)) (se : Bool),
+      vRun p ⟨cl, up, d, s, m, ⟨x, calls, hIn, se⟩⟩ = vRun p ⟨cl, up, d, s, m, ⟨y, calls, hIn, se⟩⟩ := by
+  induction p with
+  | halt => intros; rfl
+  | fin f => intros; rfl
+  | call arg k ih => intro cl up d s m x y calls hIn se; simp only [vRun]; exact ih _ _ _ _ _ x y _ _ _
+  | send r k ih => intro cl up d s m x y calls hIn se; simp only [vRun]; exact ih _ _ _ _ _ x y _ _ _
+  | recvA k ih =>
+    intro cl up d s m x y calls hIn se
+    obtain ⟨um, ue⟩ := up
+    cases um with
+    | cons a as => simp only [vRun]; exact ih _ _ _ _ _ _ x y _ _ _
+    | nil => cases ue <;> simp only [vRun] <;> simp <;> exact ih _ _ _ _ _ _ x y _ _ _
+  | recvH k ih =>
+    intro cl up d s m x y calls hIn se
+    obtain ⟨um, ue⟩ := up
+    cases um with
+    | cons a as => simp only [vRun]; exact ih _ _ _ _ _ _ x y _ _ _
+    | nil => cases ue <;> simp only [vRun] <;> simp <;> exact ih _ _ _ _ _ _ x y _ _ _
+
+theorem vRun_reach (strict : Bool) (p : VProg Req Resp) :
+    ∀ (cl : Client) (up : Up Req) (d : Down Resp) (s : List (SOp Req)) (m : MSt Req Resp)
+      (calls : Nat) (hIn : List (Option Req)) (se : Bool), cl.reqDone = true →
+      Reach strict ⟨cl, up, d, s, m, ⟨p, calls, hIn, se⟩⟩ (vRun p ⟨cl, up, d, s, m, ⟨p, calls, hIn, se⟩⟩)
+      ∧ vStep (vRun p ⟨cl, up, d, s, m, ⟨p, calls, hIn, se⟩⟩) = none := by
+  induction p with
+  | halt => intro cl up d s m calls hIn se hr; exact ⟨Reach.refl _ _, by simp [vRun, vStep, hr]⟩
+  | fin f =>
+    intro cl up d s m calls hIn se hr
+    exact ⟨Reach.step .V (by simp [step, vStep, hr, vRun]), by simp [vRun, vStep, hr]⟩
+  | call arg k ih =>
+    intro cl up d s m calls hIn se hr
+    simp only [vRun]
+    rw [vRun_prog_irrel k _ _ _ _ _ (.call arg k) k]
+    have h := ih cl up d s m (calls + 1) (hIn ++ arg.toList) se hr
+    exact ⟨(Reach.step .V (by simp [step, vStep, hr])).trans h.1, h.2⟩
+  | send r k ih =>
+    intro cl up d s m calls hIn se hr
+    simp only [vRun]
+    rw [vRun_prog_irrel k _ _ _ _ _ (.send r k) k]
+    have h := ih cl up { d with msgs := d.msgs ++ [r], hdrs := true } s m calls hIn se hr
+    exact ⟨(Reach.step .V (by simp [step, vStep, hr])).trans h.1, h.2⟩
+  | recvA k ih =>
+    intro cl up d s m calls hIn se hr
+    obtain ⟨um, ue⟩ := up
+    cases um with
+    | cons a as =>
+      simp only [vRun]
+      rw [vRun_prog_irrel (k (some a)) _ _ _ _ _ (.recvA k) (k (some a))]
+      have h := ih (some a) cl ⟨as, ue⟩ d s m calls hIn se hr
+      exact ⟨(Reach.step .V (by simp [step, vStep, hr])).trans h.1, h.2⟩
+    | nil =>
+      cases ue with
+      | false => simp only [vRun]; exact ⟨Reach.refl _ _, by simp [vStep, hr]⟩
+      | true =>
+        simp only [vRun]; simp only [if_true]
+        rw [vRun_prog_irrel (k none) _ _ _ _ _ (.recvA k) (k none)]
+        have h := ih none cl ⟨[], true⟩ d s m calls hIn true hr
+        exact ⟨(Reach.step .V (by simp [step, vStep, hr])).trans h.1, h.2⟩
+  | recvH k ih =>
+    intro cl up d s m calls hIn se hr
+    obtain ⟨um, ue⟩ := up
+    cases um with
+    | cons a as =>
+      simp only [vRun]
+      rw [vRun_prog_irrel (k (some a)) _ _ _ _ _ (.recvH k) (k (some a))]
+      have h := ih (some a) cl ⟨as, ue⟩ d s m calls (hIn ++ [some a]) se hr
+      exact ⟨(Reach.step .V (by simp [step, vStep, hr])).trans h.1, h.2⟩
+    | nil =>
+      cases ue with
+      | false => simp only [vRun]; exact ⟨Reach.refl _ _, by simp [vStep, hr]⟩
+      | true =>
+        simp only [vRun]; simp only [if_true]
+        rw [vRun_prog_irrel (k none) _ _ _ _ _ (.recvH k) (k none)]
+        have h := ih none cl ⟨[], true⟩ d s m calls (hIn ++ [none]) true hr
+        exact ⟨(Reach.step .V (by simp [step, vStep, hr])).trans h.1, h.2⟩
+
+/-- what is left of the main task's program after `mRun` is a final segment of it -/
+theorem mRun_ops_all (strict : Bool) (p : COp Req → Bool) (ops : List (COp Req)) :
+    ∀ (c : Cfg Req Resp), ops.all p = true → (mRun strict ops c).m.ops.all p = true := by
+  induction ops with
+  | nil => intro c _; rfl
+  | cons op rest ih =>
+    intro c h
+    have hr : rest.all p = true := by rw [all_cons'] at h; exact h.2
+    cases op with
+    | sendRequest => simp only [mRun]; cases sendRequest c.cl <;> simp [failM, -List.all_eq_true, ih _ hr]
+    | send o => simp only [mRun]; cases sendOp c.cl c.up o <;> simp [failM, -List.all_eq_true, ih _ hr]
+    | spawn z => simp only [mRun]; exact ih _ hr
+    | recvMessage =>
+      simp only [mRun]
+      cases c.cl.reqDone <;> simp [failM, -List.all_eq_true]
+      cases downRecv c.down with
+      | none => exact h
+      | some a => cases a <;> simp [failM, -List.all_eq_true, ih _ hr]
+    | iterYield =>
+      simp only [mRun]
+      cases c.cl.reqDone <;> simp [failM, -List.all_eq_true]
+      cases downRecv ({ c.down with msgs := [] } : Down Resp) with
+      | none => exact h
+      | some a => cases a <;> simp [failM, -List.all_eq_true, ih _ hr, h]
+    | exitCtx =>
+      simp only [mRun]
+      cases exitCheck strict c.cl c.down with
+      | none => exact h
+      | some a => cases a <;> simp [failM, -List.all_eq_true, ih _ hr]
+    | assertResponse => simp only [mRun]; cases c.m.resp.isSome <;> simp [failM, -List.all_eq_true, ih _ hr]
+    | returnResponse => simp [mRun]
+
+theorem mRun_good (strict : Bool) (ops : List (COp Req)) :
+    ∀ (b : Bool) (c : Cfg Req Resp), good b ops = true → (mRun strict ops c).m.ops.all recvOnly = true := by
+  induction ops with
+  | nil => intro b c _; rfl
+  | cons op rest ih =>
+    intro b c h
+    cases op with
+    | sendRequest => simp only [mRun]; cases sendRequest c.cl <;> simp [failM, -List.all_eq_true, ih true _ h]
+    | send o =>
+      have h' : good true rest = true := by
+        cases o with
+        | message m e => exact h
+        | endStream => exact good_true _ _ h
+      simp only [mRun]; cases sendOp c.cl c.up o <;> simp [failM, -List.all_eq_true, ih true _ h']
+    | spawn z =>
+      simp only [good, Bool.and_eq_true] at h
+      simp only [mRun]; exact mRun_ops_all strict recvOnly rest _ h.2
+    | recvMessage => exact mRun_ops_all strict recvOnly _ _ (by rw [all_cons']; exact ⟨rfl, h⟩)
+    | iterYield => exact mRun_ops_all strict recvOnly _ _ (by rw [all_cons']; exact ⟨rfl, h⟩)
+    | exitCtx => exact mRun_ops_all strict recvOnly _ _ (by rw [all_cons']; exact ⟨rfl, h⟩)
+    | assertResponse => exact mRun_ops_all strict recvOnly _ _ (by rw [all_cons']; exact ⟨rfl, h⟩)
+    | returnResponse => exact mRun_ops_all strict recvOnly _ _ (by rw [all_cons']; exact ⟨rfl, h⟩)
+
+/-- receive-side operations leave the outgoing direction, the client flags, the sender and the server alone -/
+theorem mRun_recvOnly_frame (strict : Bool) (ops : List (COp Req)) :
+    ∀ (c : Cfg Req Resp), ops.all recvOnly = true →
+      (mRun strict ops c).s = c.s ∧ (mRun strict ops c).cl = c.cl ∧ (mRun strict ops c).up = c.up
+      ∧ (mRun strict ops c).v = c.v := by
+  induction ops with
+  | nil => intro c _; simp [mRun]
+  | cons op rest ih =>
+    intro c h
+    rw [all_cons'] at h
+    obtain ⟨hop, hr⟩ := h
+    cases op with
+    | sendRequest => simp [recvOnly] at hop
+    | send o => simp [recvOnly] at hop
+    | spawn z => simp [recvOnly] at hop
+    | recvMessage =>
+      simp only [mRun]
+      cases c.cl.reqDone <;> simp [failM]
+      cases downRecv c.down with
+      | none => simp
+      | some a => cases a <;> simp [failM] <;> exact ih _ hr
+    | iterYield =>
+      simp only [mRun]
+      cases c.cl.reqDone <;> simp [failM]
+      cases downRecv ({ c.down with msgs := [] } : Down Resp) with
+      | none => simp
+      | some a => cases a <;> simp [failM] <;> exact ih _ hr
+    | exitCtx =>
+      simp only [mRun]
+      cases exitCheck strict c.cl c.down with
+      | none => simp
+      | some a => cases a <;> simp [failM] <;> exact ih _ hr
+    | assertResponse => simp only [mRun]; cases c.m.resp.isSome <;> simp [failM] <;> exact ih _ hr
+    | returnResponse => simp [mRun]
+
+theorem vStep_congr (c1 c2 : Cfg Req Resp) (h1 : c1.cl = c2.cl) (h2 : c1.up = c2.up) (h3 : c1.v = c2.v)
+    (h : vStep c2 = none) : vStep c1 = none := by
+  obtain ⟨cl, ⟨um, ue⟩, d, s, m, ⟨prog, calls, hIn, se⟩⟩ := c1
+  obtain ⟨cl2, up2, d2, s2, m2, v2⟩ := c2
+  simp only at h1 h2 h3; subst h1 h2 h3
+  cases hr : cl.reqDone with
+  | false => simp [vStep, hr]
+  | true => v_cases prog um ue <;> simp [vStep, hr] at h ⊢
+
+theorem canon_reach (strict : Bool) (c : Cfg Req Resp) : Reach strict c (canon strict c) := by
+  have eM : ∀ c : Cfg Req Resp, Reach strict c (mRunC strict c) := by
+    intro c; obtain ⟨cl, up, d, s, ⟨ops, resp, yl, res⟩, v⟩ := c
+    exact (mRun_reach strict ops cl up d s resp yl res v).1
+  have eS : ∀ c : Cfg Req Resp, Reach strict c (sRun c) := by
+    intro c; obtain ⟨cl, up, d, s, m, v⟩ := c
+    exact sRun_reach strict s cl up d m v
+  have eV : ∀ c : Cfg Req Resp, Reach strict c (vRunG c) := by
+    intro c; obtain ⟨cl, up, d, s, m, ⟨p, calls, hIn, se⟩⟩ := c
+    cases hr : cl.reqDone with
+    | false => simp only [vRunG, hr]; exact Reach.refl _ _
+    | true => simp only [vRunG, hr]; exact (vRun_reach strict p cl up d s m calls hIn se hr).1
+  exact ((eM c).trans (eS _)).trans ((eV _).trans (eM _))
+
+theorem vRun_frame (p : VProg Req Resp) :
+    ∀ c : Cfg Req Resp, (vRun p c).m = c.m ∧ (vRun p c).s = c.s ∧ (vRun p c).cl = c.cl := by
+  induction p with
+  | halt => intro c; simp [vRun]
+  | fin f => intro c; simp [vRun]
+  | call a k ih => intro c; simp only [vRun]; exact ih _
+  | send r k ih => intro c; simp only [vRun]; exact ih _
+  | recvA k ih =>
+    intro c; obtain ⟨cl, ⟨um, ue⟩, d, s, m, v⟩ := c
+    cases um with
+    | cons a as => simp only [vRun]; exact ih _ _
+    | nil => cases ue <;> simp only [vRun] <;> simp <;> exact ih _ _
+  | recvH k ih =>
+    intro c; obtain ⟨cl, ⟨um, ue⟩, d, s, m, v⟩ := c
+    cases um with
+    | cons a as => simp only [vRun]; exact ih _ _
+    | nil => cases ue <;> simp only [vRun] <;> simp <;> exact ih _ _
+
+theorem vRunG_frame (c : Cfg Req Resp) : (vRunG c).m = c.m ∧ (vRunG c).s = c.s ∧ (vRunG c).cl = c.cl := by
+  unfold vRunG
+  cases c.cl.reqDone
+  · simp
+  · simp only [if_true]; exact vRun_frame _ _
+
+/-- for a program of the shape `good` the canonical schedule ends with no task able to step -/
+theorem canon_quiet (strict : Bool) (c : Cfg Req Resp) (hg : good c.cl.reqDone c.m.ops = true) :
+    Quiet strict (canon strict c) := by
+  -- after the first phase only receive-side operations are left
+  have h1 : (mRunC strict c).m.ops.all recvOnly = true := mRun_good strict _ _ _ hg
+  let c2 := vRunG (sRun (mRunC strict c))
+  have hm2 : c2.m = (mRunC strict c).m := by
+    show (vRunG (sRun (mRunC strict c))).m = _
+    rw [(vRunG_frame _).1]; rfl
+  have hs2 : c2.s = [] := by
+    show (vRunG (sRun (mRunC strict c))).s = _
+    rw [(vRunG_frame _).2.1]; rfl
+  have hv2 : vStep c2 = none := by
+    show vStep (vRunG (sRun (mRunC strict c))) = none
+    generalize sRun (mRunC strict c) = c1
+    obtain ⟨cl, up, d, s, m, ⟨p, calls, hIn, se⟩⟩ := c1
+    cases hr : cl.reqDone with
+    | false => simp [vRunG, hr, vStep]
+    | true => simp only [vRunG, hr]; exact (vRun_reach strict p cl up d s m calls hIn se hr).2
+  have h2 : c2.m.ops.all recvOnly = true := by rw [hm2]; exact h1
+  have hfr := mRun_recvOnly_frame strict c2.m.ops c2 h2
+  have hmq : mStep strict (mRunC strict c2) = none := by
+    obtain ⟨cl, up, d, s, ⟨ops, resp, yl, res⟩, v⟩ := c2
+    exact (mRun_reach strict ops cl up d s resp yl res v).2
+  intro t
+  show step strict t (mRunC strict c2) = none
+  cases t with
+  | M => exact hmq
+  | S => simp only [step, sStep, mRunC, hfr.1, hs2]
+  | V => exact vStep_congr _ c2 hfr.2.1 hfr.2.2.1 hfr.2.2.2 hv2
+
 end Bp.GrpcCall
